@@ -45,7 +45,8 @@ JudgeOpen(ev, la, loc2, adj2) ==
     ELSE IF ev.cache_foreign THEN "cache-unasked"
     ELSE IF ev.opts_mutated THEN "options-mutated"
     ELSE IF la.outcome = "tree" /\ ev.outcome # "tree" THEN (IF la.judged THEN "spurious-error" ELSE "drift:unjudged-open-raised")
-    ELSE IF la.outcome # "tree" /\ ev.outcome = "tree" THEN (IF la.cause = "cachedir" THEN "drift:unusable-cache-dir-tolerated" ELSE "not-failstop")
+    ELSE IF la.outcome # "tree" /\ ev.outcome = "tree" THEN (IF la.cause # "cachedir" THEN "not-failstop"
+                                                               ELSE IF ev.match = "same" THEN "drift:unusable-cache-dir-tolerated" ELSE "content:" \o ev.match)
     ELSE IF la.outcome = "oserror" /\ ev.outcome = "error" THEN "wrong-error-class"
     ELSE IF la.outcome = "tree" /\ la.judged /\ ev.match # "same" THEN "content:" \o ev.match
     ELSE IF la.outcome = "tree" /\ ~la.uc /\ ev.consulted THEN "cache-consulted-when-disabled"
@@ -73,6 +74,7 @@ Explain ==
       [] ev.e = "restore"   -> Restore(ev.loc)
       [] ev.e = "delete"    -> CellSet(ev.loc, ev.img, ev.cell, Absent)
       [] ev.e = "tear"      -> CellSet(ev.loc, ev.img, ev.cell, Torn)
+      [] ev.e = "block"     -> CellSet(ev.loc, ev.img, ev.cell, Blocked)
       [] ev.e = "cachedir"  -> CacheDir(ev.usable)
       [] ev.e = "purge"     -> Purge(ev.scope)
       [] OTHER -> FALSE
@@ -96,7 +98,7 @@ Consume ==
     /\ l' = l + 1 /\ UNCHANGED <<tid, ndrift>>
 \* The cells are LOGGED state: where the real cache state left the Design (the library wrote or removed an index on its own, the CLI
 \* indexed a shortened image, ...) the logged state is adopted and validation goes on.  A cell that appeared unasked is marked so.
-Adopt(obs, cur, v) == IF obs = cur.st THEN cur ELSE IF obs = "full" THEN Unasked(v) ELSE IF obs = "torn" THEN Torn ELSE Absent
+Adopt(obs, cur, v) == IF obs = cur.st THEN cur ELSE IF obs = "full" THEN Unasked(v) ELSE IF obs = "torn" THEN Torn ELSE IF obs = "blocked" THEN Blocked ELSE Absent
 Resync ==
     /\ needSync
     /\ LET ev == Lines[l - 1] IN
